@@ -1,7 +1,7 @@
 #!/bin/bash
 # tools/runall.sh [tier] — developer tool: run every registered check once (VERIF_SEED from the environment) and summarise.
 TIER="${1:-quick}"
-cd /verif
+cd "$(dirname "$0")/.."
 for p in C01 C02 C03 C04 C05 C06 C07 C08 C09 C10 C11 C12 C13 C14 C15 C16 C17 C18 C19; do
   s=$(date +%s)
   ./check $p $TIER > /tmp/runall.$p.out 2>&1; rc=$?
